@@ -270,6 +270,8 @@ def _case_for_labels(labels_t, spin):
         "base": gen.poly_strategy(labels, 4, 3, gen.MIXED_COEFS, spin=spin),
         "cons": st.lists(constraint_strategy(labels, spin), min_size=1, max_size=4 if spin else 3),
         "copy_at": st.sampled_from([None, None, 1, 2, 3] if spin else [None, None, None, 1, 2]),
+        # refresh() is documented to be harmless at any time: the constraint history must survive it
+        "refresh_at": st.sampled_from([None, None, None, 1, 2]),
     }).map(lambda s: _normalise(s, spin))
 
 
@@ -498,6 +500,12 @@ def run(spec, rec, spin):
                 raise Violation("copy_type", "%s.copy() -> %s" % (type(M).__name__, type(C).__name__))
             M = C
             classes.add("copied_midway")
+        if spec.get("refresh_at") is not None and idx == spec.get("refresh_at"):
+            before_refresh = ref.canon(dict(M), spin)
+            lib(M.refresh, what="refresh")
+            if ref.canon(dict(M), spin) != before_refresh:
+                raise Violation("refresh_changed_terms", "%r -> %r" % (before_refresh, dict(M)))
+            classes.add("refreshed_midway")
 
         rel, lam, log = c["rel"], c["lam"], bool(c["log_trick"])
         terms_list = [[tuple(k), v] for k, v in c["terms"]]
